@@ -529,8 +529,7 @@ def differential(factory_a, factory_b, max_depth, actions=ACTIONS, first=FIRST_A
             res["n_steps"] += 2 * len(s)
             res["obs"].append((s, oa))
             if view(oa) != view(ob):
-                # every mismatch is re-executed (after a full collection) before it is reported
-                gc.collect()
+                # every mismatch is re-executed before it is reported
                 oa2 = run_script(factory_a, s, env_factory(), respond)
                 ob2 = run_script(factory_b, s, env_factory(), respond)
                 if view(oa2) != view(oa) or view(ob2) != view(ob):
